@@ -1,5 +1,11 @@
-// unit `tok`: the str tokenizers of src/text/abstraction.rs (property C06)
+// unit `tok`: the tokenizers of src/text/abstraction.rs (property C06): `impl DiffableStr for str` (tokens.rs) and
+// `impl DiffableStr for [u8]` in `mod bytes_support` (tokens_bytes.rs): tokenize_lines, tokenize_lines_and_newlines,
+// tokenize_words.  Not covered: tokenize_chars, tokenize_unicode_words, tokenize_graphemes.
+// (tools/vx.py names the functions of `impl DiffableStr for [u8]` `DiffableStr::tokenize_*`, like the trait's
+// declarations: its impl-header pattern does not read `[u8]`.)
 //@@ include tokens.rs
+//@@ include tokens_bytes.rs
 //@@ props ^DiffableStr for str::tokenize_ : C06
-//@@ props ^lemma_tok_ : C06
+//@@ props ^DiffableStr::tokenize_ : C06
+//@@ props ^lemma_tok_|^lemma_tokb_ : C06
 fn main() {}
